@@ -151,7 +151,11 @@ func (b *StscBox) Info(w io.Writer, specificBoxLevels, indent, indentStep string
 }
 
 // AddEntry adds a new entry and calculates helper values.
+// The sampleDescriptionID is 1-based: 0 is refused (as DecodeStscSR does) and leaves the box unchanged.
 func (b *StscBox) AddEntry(firstChunk, samplesPerChunk, sampleDescriptionID uint32) error {
+	if sampleDescriptionID == 0 {
+		return fmt.Errorf("stsc sample description id is 0")
+	}
 	switch {
 	case len(b.Entries) == 0:
 		if firstChunk != 1 {
@@ -195,8 +199,12 @@ func (b *StscBox) entrySampleDescriptionID(entryIdx int) uint32 {
 	return b.SampleDescriptionID[entryIdx]
 }
 
-// SetSingleSampleDescriptionID - use this for efficiency if all samples have same sample description
+// SetSingleSampleDescriptionID - use this for efficiency if all samples have same sample description.
+// The sampleDescriptionID is 1-based: 0 is not a valid value and is ignored.
 func (b *StscBox) SetSingleSampleDescriptionID(sampleDescriptionID uint32) {
+	if sampleDescriptionID == 0 {
+		return
+	}
 	b.singleSampleDescriptionID = sampleDescriptionID
 	b.SampleDescriptionID = nil
 }
